@@ -128,6 +128,35 @@ let describe w c =
      | None -> "prop?")
   | CtlCfg _ -> "cfg" | CtlMaster _ -> "master" | CtlConn _ -> "conn"
 
+(* the family (finding signature) of an enabled controller id at an idle state *)
+let is_ph o p = (o = Some p)
+let family w c =
+  match c with
+  | CtlTx i ->
+    (match find_tx w i with
+     | Some t ->
+       let prev = find_tx w (n_of_int (int_of_n i - 1)) in
+       if t.t_validate = None && t.t_init = Some Doing && (match prev with Some p -> p.t_init = Some Failed | None -> false) then "initfail_successor"
+       else if t.t_abort = None && t.t_apply = None &&
+               ((t.t_init = Some Done && t.t_validate = None) || (t.t_validate = Some Done && t.t_commit = None) || (t.t_commit = Some Done)) then "serializable_gate"
+       else "other_tx"
+     | None -> "other_tx")
+  | CtlProp (t, i) ->
+    (match find_prop w (t, i) with
+     | Some p ->
+       let prev = if int_of_n p.p_prev = 0 then None else find_prop w (t, p.p_prev) in
+       let prev_dead = match prev with Some q -> q.p_apply = Some Failed || (q.p_apply = None && q.p_abort = Some Done) | None -> false in
+       let waiting = (p.p_apply = Some Doing) || (p.p_apply = None && p.p_abort = Some Doing) || (p.p_apply = None && p.p_abort = None && p.p_commit = None && p.p_validate = Some Doing) in
+       if waiting && prev_dead then "dead_prev"
+       else if p.p_apply = Some Doing then "sync_wakeup"
+       else if p.p_apply = None && p.p_abort = None && p.p_commit = None && p.p_validate = Some Doing
+               && (match prev with Some q -> q.p_commit = Some Done | None -> false) then "commit_hidden_by_apply"
+       else "other_prop"
+     | None -> "other_prop")
+  | CtlCfg _ -> "other_cfg" | CtlMaster _ -> "other_master" | CtlConn _ -> "other_conn"
+
+let families : (string, int * int) Hashtbl.t = Hashtbl.create 16
+
 let tx_final (t : cmap txn) =
   match t.t_state with
   | TApplied -> true
@@ -155,7 +184,10 @@ let check_idle (s : (cmap, cmap, req, dstate) qworld) (trace_rev : cmap qlabel l
   if stranded then stat "idle_stranded";
   if en <> [] then begin
     stat "idle_not_fixpoint";
-    let key = String.concat " + " (List.sort_uniq compare (List.map (describe w) en)) in
+    List.iter (fun f -> let (a, b) = try Hashtbl.find families f with Not_found -> (0, 0) in
+                Hashtbl.replace families f (a + 1, if stranded then b + 1 else b))
+      (List.sort_uniq compare (List.map (family w) en));
+    let key = String.concat "," (List.sort_uniq compare (List.map (family w) en)) ^ " :: " ^ String.concat " + " (List.sort_uniq compare (List.map (describe w) en)) in
     let tr = List.rev trace_rev in
     match Hashtbl.find_opt shapes key with
     | Some h ->
@@ -196,7 +228,7 @@ let gen_scen (rng : Random.State.t) : scen =
         items := !items @ [ Rollback (1 + Random.State.int rng (k + 2)) ]
       else begin
         let tg = if nt = 1 then [ 1 ] else (match Random.State.int rng 3 with 0 -> [ 1 ] | 1 -> [ 2 ] | _ -> [ 1; 2 ]) in
-        items := !items @ [ Change (List.map (fun t -> (t, 10 * idx + t)) tg, Random.State.int rng 4 = 0) ];
+        items := !items @ [ Change (List.map (fun t -> (t, 10 * idx + t)) tg, (Sys.getenv_opt "C09_NOSER" = None) && Random.State.int rng 4 = 0) ];
         List.iter (fun t ->
             (match Random.State.int rng 8 with
              | 0 | 1 -> reject := (t, idx) :: !reject
@@ -214,7 +246,31 @@ let gen_scen (rng : Random.State.t) : scen =
   done;
   { items = !items; reject = !reject; fail = !fail; noplugin = !noplugin }
 
+(* two proposals that re-queue each other without doing anything: the work queue never drains *)
+let check_cycle (sc : scen) (s : (cmap, cmap, req, dstate) qworld) (tr : cmap qlabel list) : bool =
+  List.exists (fun c ->
+      match c with
+      | CtlProp k1 ->
+        (match p2_reconcile (oracle_for sc c false) s.qw c with
+         | ([], RRequeueProp k2) ->
+           (match p2_reconcile (oracle_for sc (CtlProp k2) false) s.qw (CtlProp k2) with
+            | ([], RRequeueProp k3) when k3 = k1
+                                         && List.exists (fun (t, i) -> match find_prop s.qw (t, i), find_tx s.qw i with
+                                             | Some p, Some tx -> p.p_apply = None && tx.t_apply = Some Failed | _ -> false) [ k1; k2 ] ->
+              let key = "CYCLE " ^ describe s.qw c ^ " <-> " ^ describe s.qw (CtlProp k2) in
+              let t = List.rev tr in
+              (match Hashtbl.find_opt shapes key with
+               | Some h -> h.count <- h.count + 1;
+                 if List.length t < List.length h.best then begin h.best <- t; h.state <- summary_string s.qw; h.who <- sctrl c end
+               | None -> Hashtbl.replace shapes key { count = 1; stranded = 0; best = t; state = summary_string s.qw; who = sctrl c });
+              true
+            | _ -> false)
+         | _ -> false)
+      | _ -> false) s.queue
+
 let max_steps = 3000
+let fx = ref no_fixes
+let q_step s l = q_step_fx !fx s l
 
 let run_random (rng : Random.State.t) (sc : scen) =
   let s = ref q_init and env = ref sc.items and trace = ref [] and steps = ref 0 and go = ref true in
@@ -231,10 +287,20 @@ let run_random (rng : Random.State.t) (sc : scen) =
       let c = List.nth !s.queue n in
       let transient = Random.State.int rng 25 = 0 in
       let l = QDeliver (nat_of_int n, oracle_for sc c transient) in
-      s := q_step !s l; trace := l :: !trace
+      s := q_step !s l; trace := l :: !trace;
+      if check_cycle sc !s !trace then begin stat "runs_cycle"; go := false end
     end
   done;
-  if !steps >= max_steps then stat "runs_cut" else stat "runs_to_idle"
+  if !steps >= max_steps then begin
+    stat "runs_cut";
+    (* a run that does not come to rest: which ids keep the queues busy, and are they doing anything *)
+    let w = !s.qw in
+    let busy = List.sort_uniq compare (List.map (fun c -> sctrl c ^ (if q_enabled o_quiet w <> [] && List.mem c (q_enabled o_quiet w) then "!" else "")) !s.queue) in
+    let key = "BUSY " ^ String.concat "," (List.sort_uniq compare (List.map (fun c -> family w c ^ "/" ^ describe w c) !s.queue)) in
+    (match Hashtbl.find_opt shapes key with
+     | Some h -> h.count <- h.count + 1
+     | None -> Hashtbl.replace shapes key { count = 1; stranded = 0; best = List.rev !trace; state = summary_string w; who = String.concat "," busy })
+  end else stat "runs_to_idle"
 
 (* ------------------------------------------------------------------ exhaustive delivery orders *)
 let key_of (s : (cmap, cmap, req, dstate) qworld) (envpos : int) : string =
@@ -245,12 +311,42 @@ let run_exhaustive (sc : scen) (max_states : int) =
   let visited = Hashtbl.create 4096 in
   let items = Array.of_list sc.items in
   let q = Queue.create () in
+  (* reduction: pending ids whose reconcile does nothing at all (no effect, no requeue) are delivered at once - the
+     adversarial choice: delivering them later could only help.  The deliveries are recorded in the trace, so every
+     witness is a genuine delivery order of the multiset model. *)
+  let rec normalize (s : (cmap, cmap, req, dstate) qworld) tr =
+    let rec find n = function
+      | [] -> None
+      | c :: rest ->
+        let o = oracle_for sc c false in
+        (match p2_reconcile o s.qw c with
+         | ([], RDone) -> Some (n, o)
+         | _ -> find (n + 1) rest) in
+    match find 0 s.queue with
+    | Some (n, o) -> let l = QDeliver (nat_of_int n, o) in normalize (q_step s l) (l :: tr)
+    | None -> (s, tr) in
   Queue.add (q_init, 0, []) q;
   Hashtbl.replace visited (key_of q_init 0) ();
   let cut = ref false in
   while not (Queue.is_empty q) do
     let (s, envpos, tr) = Queue.pop q in
     if s.queue = [] then check_idle s tr;
+    (* two proposals that re-queue each other without doing anything: the work queue never drains *)
+    List.iter (fun c ->
+        match c with
+        | CtlProp k1 ->
+          (match p2_reconcile (oracle_for sc c false) s.qw c with
+           | ([], RRequeueProp k2) ->
+             (match p2_reconcile (oracle_for sc (CtlProp k2) false) s.qw (CtlProp k2) with
+              | ([], RRequeueProp k3) when k3 = k1 ->
+                let key = "CYCLE " ^ describe s.qw c ^ " <-> " ^ describe s.qw (CtlProp k2) in
+                let t = List.rev tr in
+                (match Hashtbl.find_opt shapes key with
+                 | Some h -> h.count <- h.count + 1
+                 | None -> Hashtbl.replace shapes key { count = 1; stranded = 0; best = t; state = summary_string s.qw; who = sctrl c })
+              | _ -> ())
+           | _ -> ())
+        | _ -> ()) s.queue;
     let succs = ref [] in
     if envpos < Array.length items then begin
       let l = QEnv (label_of items.(envpos)) in
@@ -264,6 +360,7 @@ let run_exhaustive (sc : scen) (max_states : int) =
           succs := (q_step s l, envpos, l :: tr) :: !succs
         end) s.queue;
     List.iter (fun (s', e', tr') ->
+        let (s', tr') = normalize s' tr' in
         let k = key_of s' e' in
         if not (Hashtbl.mem visited k) then
           if Hashtbl.length visited < max_states then begin Hashtbl.replace visited k (); Queue.add (s', e', tr') q end
@@ -290,6 +387,13 @@ let small_scopes : scen list =
                 reject = [ (2, 1) ] };
     (* rejected change while the device is away, then a change, then the device arrives *)
     { base with items = [ Target 1; Change ([ (1, 11) ], false); Change ([ (1, 21) ], false); ConnUp (11, 1) ]; reject = [ (1, 1) ] };
+    (* a change and its rollback committed while the device is away, then the device arrives *)
+    { base with items = [ Target 1; Change ([ (1, 11) ], false); Rollback 1; ConnUp (11, 1) ] };
+    (* two targets, the device of the first refuses the change *)
+    { base with items = [ Target 1; Target 2; ConnUp (11, 1); ConnUp (12, 2); Change ([ (1, 11); (2, 12) ], false); Change ([ (2, 22) ], false) ];
+                fail = [ (1, 1) ] };
+    (* a serializable change and a change committed while the device is away, then the device arrives *)
+    { base with items = [ Target 1; Change ([ (1, 11) ], true); Change ([ (1, 21) ], false); ConnUp (11, 1) ] };
     (* change, rollback of it, change *)
     { base with items = [ Target 1; ConnUp (11, 1); Change ([ (1, 11) ], false); Rollback 1; Change ([ (1, 31) ], false) ] };
   ]
@@ -299,19 +403,29 @@ let () =
   let seed = if Array.length Sys.argv > 2 then int_of_string Sys.argv.(2) else 1 in
   let n = if Array.length Sys.argv > 3 then int_of_string Sys.argv.(3) else 2000 in
   let maxst = if Array.length Sys.argv > 4 then int_of_string Sys.argv.(4) else 60000 in
+  (if Array.length Sys.argv > 5 then
+     let f = Sys.argv.(5) in
+     fx := { fx_next = f.[0] = '1'; fx_initfail = f.[1] = '1'; fx_proposed = f.[2] = '1' });
   let rng = Random.State.make [| seed |] in
   if mode = "random" || mode = "both" then
     for _ = 1 to n do
       let sc = gen_scen rng in
       for _ = 1 to 4 do run_random rng sc done
     done;
+  if mode = "scoperandom" then begin
+    let i = int_of_string (Sys.getenv "C09_SCOPE") in
+    for _ = 1 to n do run_random rng (List.nth small_scopes i) done
+  end;
   if mode = "exhaustive" || mode = "both" then
-    List.iter (fun sc -> run_exhaustive sc maxst) small_scopes;
+    List.iteri (fun i sc -> match Sys.getenv_opt "C09_SCOPE" with
+        | Some n when int_of_string n <> i -> ()
+        | _ -> run_exhaustive sc maxst) small_scopes;
   let l = Hashtbl.fold (fun k h acc -> (k, h) :: acc) shapes [] in
   let l = List.sort (fun (_, a) (_, b) -> compare b.count a.count) l in
   List.iter (fun (k, h) -> Printf.printf "SHAPE\t%d\t%d\t%s\n" h.count h.stranded k) l;
   List.iter (fun (k, h) ->
       Printf.printf "WITNESS\t%s\t%d\t%s\n" k (List.length h.best) (coq_labels h.best);
       Printf.printf "STATE\t%s\t%s\t%s\n" k h.who h.state) l;
+  Hashtbl.iter (fun k (a, b) -> Printf.printf "FAMILY\t%s\t%d\t%d\n" k a b) families;
   Hashtbl.iter (fun k v -> Printf.printf "STAT\t%s\t%d\n" k v) stats;
   Printf.printf "STAT\tshapes\t%d\n" (List.length l)
